@@ -6,6 +6,7 @@ package main
 
 import (
 	"fmt"
+	"os"
 	"go/types"
 	"strings"
 	"sync"
@@ -42,13 +43,15 @@ type GoR struct {
 	wouldBlock   int
 	daemon       bool // environment goroutine: may stay blocked at the end
 	pending      *pendingOp
+	vc           vclock
 }
 
 // pendingOp describes the visible operation a goroutine is about to perform (for partial-order reduction):
 // two operations are dependent iff they touch a common synchronisation object (or one of them is global).
 type pendingOp struct {
-	objs []interface{}
-	all  bool
+	objs   []interface{}
+	all    bool
+	noSync bool // channel operations synchronise at the arm actually taken, not on every channel they look at
 }
 
 func dependent(a, b *pendingOp) bool {
@@ -70,6 +73,11 @@ func dependent(a, b *pendingOp) bool {
 
 // opExecuted wakes the sleeping goroutines whose next operation depends on the one g performs now.
 func (ip *Interp) opExecuted(g *GoR) {
+	if g.pending != nil && !g.pending.noSync {
+		for _, o := range g.pending.objs {
+			ip.syncOp(o)
+		}
+	}
 	delete(ip.sleep, g)
 	for s := range ip.sleep {
 		if dependent(s.pending, g.pending) {
@@ -90,11 +98,12 @@ func (ip *Interp) pick(cands []*GoR) *GoR {
 	if len(opts) == 0 {
 		panic(&PathEnd{kind: "redundant", msg: "sleep-set blocked"})
 	}
-	if !ip.cfg.NoPOR {
+	if !ip.cfg.NoPOR && os.Getenv("VERIF_NOSTART") != "1" {
 		// a goroutine that has not reached its first visible operation yet commutes with everything:
 		// run it first, no alternative order needs exploring
 		for _, c := range opts {
 			if c.pending == nil && c != ip.cur {
+				ip.freshPick = true
 				return c
 			}
 		}
@@ -252,15 +261,23 @@ func (ip *Interp) noneRunnable() {
 func (ip *Interp) schedPoint(what string, objs ...interface{}) {
 	g := ip.cur
 	g.pending = &pendingOp{objs: objs, all: len(objs) == 0}
+	for _, o := range objs {
+		if _, isChan := o.(*ChanObj); isChan {
+			g.pending.noSync = true
+		}
+	}
 	if len(ip.gs) <= 1 || ip.inInit {
 		return
 	}
 	if ip.preempts < ip.maxPreempt {
 		rs := ip.runnable(g)
 		if len(rs) > 0 {
+			ip.freshPick = false
 			c := ip.pick(append([]*GoR{g}, rs...))
 			if c != g {
-				ip.preempts++
+				if !ip.freshPick {
+					ip.preempts++ // letting a just-created goroutine reach its first visible operation is not a preemption
+				}
 				ip.switchTo(c)
 			}
 		}
@@ -299,6 +316,7 @@ func (ip *Interp) spawn(d *deferred) {
 		g.name += ":" + cl.fn.Name()
 	}
 	ip.gs = append(ip.gs, g)
+	ip.forkClock(ip.cur, g)
 	ip.startGoroutine(g, func() { ip.invokeDeferred(d) }, false)
 	ip.schedPoint("go", g)
 }
@@ -341,6 +359,12 @@ func (ip *Interp) tryRecv(ch *ChanObj) (Value, bool, bool) {
 			return ip.zero(ch.elemT), true, true
 		}
 		return nil, false, false
+	}
+	if len(ch.buf) > 0 || len(ch.sendq2) > 0 || ch.closed {
+		ip.syncAcquire(ch)
+		if ch.cap > 0 {
+			ip.syncRelease(ch) // the k-th receive happens before the (k+cap)-th send completes
+		}
 	}
 	if len(ch.buf) > 0 {
 		v := ch.buf[0]
@@ -389,6 +413,10 @@ func (ip *Interp) trySend(ch *ChanObj, v Value) bool {
 	if ch.closed {
 		ip.goPanic("send on closed channel")
 	}
+	if len(ch.recvq2) > 0 || len(ch.buf) < ch.cap {
+		ip.syncAcquire(ch)
+		ip.syncRelease(ch)
+	}
 	if len(ch.recvq2) > 0 {
 		r := ch.recvq2[0]
 		ip.complete(r, v, true, false)
@@ -412,8 +440,12 @@ func (ip *Interp) chanSend(ch *ChanObj, v Value) {
 		r := &chanReg{g: g, ch: ch, send: true, val: v}
 		g.regs = []*chanReg{r}
 		ch.sendq2 = append(ch.sendq2, r)
+		ip.syncRelease(ch)
 	}
 	ip.block(func() bool { return g.completed != nil }, "chan send")
+	if ch != nil {
+		ip.syncAcquire(ch)
+	}
 	if g.sendPanic {
 		g.sendPanic = false
 		ip.goPanic("send on closed channel")
@@ -438,6 +470,7 @@ func (ip *Interp) chanRecv(ch *ChanObj) (Value, bool) {
 		ip.conc.envTicks--
 		return ip.zero(ch.elemT), true
 	}
+	ip.syncAcquire(ch)
 	return g.recvVal, g.recvOk
 }
 
@@ -449,6 +482,7 @@ func (ip *Interp) chanClose(ch *ChanObj) {
 	if ch.closed {
 		ip.goPanic("close of closed channel")
 	}
+	ip.syncRelease(ch)
 	ch.closed = true
 	for len(ch.recvq2) > 0 {
 		ip.complete(ch.recvq2[0], ip.zero(ch.elemT), false, false)
@@ -534,6 +568,7 @@ func (ip *Interp) selectOp(fr *Frame, x *ssa.Select) Value {
 		g.regs = append(g.regs, r)
 		if a.send {
 			a.ch.sendq2 = append(a.ch.sendq2, r)
+			ip.syncRelease(a.ch)
 		} else {
 			a.ch.recvq2 = append(a.ch.recvq2, r)
 		}
@@ -546,6 +581,7 @@ func (ip *Interp) selectOp(fr *Frame, x *ssa.Select) Value {
 		return result(envArm, ip.zero(arms[envArm].ch.elemT), true)
 	}
 	r := g.completed
+	ip.syncAcquire(r.ch)
 	if r.send {
 		if g.sendPanic {
 			g.sendPanic = false
@@ -562,6 +598,5 @@ func stackTrace() string {
 	return string(buf[:n])
 }
 
-// sharedAccess: plain loads/stores are not scheduling points (data-race freedom
-// of non-atomic accesses is an assumption of every concurrent harness).
+// sharedAccess: plain loads/stores are not scheduling points (data-race freedom is checked by race.go).
 func (ip *Interp) sharedAccess(c *Cell) {}
